@@ -188,6 +188,10 @@ var staticCatalogue = []staticSig{
 	{fn: func() (error, error) { return nil, nil }, out: []expVal{{"", errIface, ""}}},
 	{fn: func() error { return nil }},
 	{fn: func() {}},
+	// a variadic parameter is one positional value of slice type
+	{fn: func(a int, rest ...string) {}, in: []expVal{{"", reflect.TypeOf(0), ""}, {"", reflect.TypeOf([]string(nil)), ""}}},
+	// a pointer to a plain (marker-less) struct and an interface parameter
+	{fn: func(p *stPlain, s fmt.Stringer) {}, in: []expVal{{"", reflect.TypeOf(&stPlain{}), ""}, {"", reflect.TypeOf((*fmt.Stringer)(nil)).Elem(), ""}}},
 }
 
 func checkSet(v *engine.Verdict, what string, vs *argmapper.ValueSet, want []expVal) {
